@@ -27,7 +27,7 @@ OPS = ('f_fillna_dir1', 's_reindex', 's_shift', 's_concat', 's_insert', 's_assig
        'f_reindex', 'f_shift', 'f_concat0', 'f_concat1', 'f_assign_el', 'f_assign_arr', 'f_assign_series', 'f_assign_bloc', 'f_fillna', 'f_fillna_sided',
        'f_row', 'f_values', 'f_iter_array1', 'f_from_records', 'f_from_records_mixed', 'f_from_dict_records', 'f_from_items', 'f_insert', 'f_overlay',
        'go_setitem', 'go_extend', 'ix_append', 'ix_fillna', 'f_relabel_shift', 'f_unset_index', 'f_pivot_stack', 'f_pivot_unstack', 'f_pivot_unstack_ragged',
-       'go_values', 'go_iter_array1', 'go_iter_tuple1', 'go_transpose')
+       'go_values', 'go_iter_array1', 'go_iter_tuple1', 'go_transpose', 'f_assign_frame_rows')
 
 
 def _str_or_bytes(k):
@@ -324,6 +324,22 @@ def check(case):
             else:
                 _series_cells(f['y'].iloc[:n - 1], lb[:n - 1], op + '.y', cells)
             dts.append((f['x'].dtype, a.dtype, op + ' untouched column x'))
+        elif op == 'f_assign_frame_rows':
+            # a Frame value whose columns have unlike dtypes (one of them the target's own), written onto some of the rows of two
+            # columns that share one 2-D block of the target
+            if n < 2:
+                raise Discard('needs two rows')
+            tgt = sf.Frame(gen.freeze(np.column_stack([a, a])) if a.dtype != object else gen.freeze(np.array([[x, x] for x in la], dtype=object).reshape(n, 2)),
+                           index=idx, columns=('x', 'y'))
+            rows = idx[:n - 1] if i % 2 else idx[1:]
+            sel = slice(0, n - 1) if i % 2 else slice(1, n)
+            val = sf.Frame.from_items((('x', gen.freeze(a[sel])), ('y', gen.freeze(b[sel]))), index=rows)
+            r = tgt.assign.loc[rows, ['x', 'y']](val) if i % 3 else tgt.assign.iloc[sel, [0, 1]](val)
+            keep_pos = n - 1 if i % 2 else 0
+            _series_cells(r['x'], la, op + '.x', cells)
+            exp_y = list(lb)
+            exp_y[keep_pos] = la[keep_pos]
+            _series_cells(r['y'], exp_y, op + '.y', cells)
         elif op in ('go_values', 'go_iter_array1', 'go_iter_tuple1', 'go_transpose'):
             # rows consolidated from a frame that was grown after construction (its row dtype is kept up incrementally)
             f = sf.FrameGO.from_items((('x', a),), index=idx)
